@@ -6,14 +6,28 @@
 EXTENDS KvLine
 CONSTANTS MaxLen, MaxLen2
 VARIABLE g
-Alpha == {97, SP, TAB, DQ, BS, EQ, CR, LF}
+ZZ == 90                                  \* the filler byte of the long-line vectors
+Alpha == {97, ZZ, SP, TAB, DQ, BS, EQ, CR, LF}
 Vals(n) == UNION {[1..k -> Alpha] : k \in 0..n}
+Vals2(n) == UNION {[1..k -> Alpha \ {97}] : k \in 0..n}     \* two-pair lists: the filler is the only ordinary byte
 Keys == {<<75>>, <<76, 111, 103>>}        \* "K", "Log"
 GInit == \/ g \in {<< <<k, v>> >> : k \in Keys, v \in Vals(MaxLen)}
-         \/ g \in {<< <<k, v>>, <<k2, w>> >> : k \in {<<75>>}, k2 \in Keys, v \in Vals(MaxLen2), w \in Vals(MaxLen2)}
+         \/ g \in {<< <<k, v>>, <<k2, w>> >> : k \in {<<75>>}, k2 \in Keys, v \in Vals2(MaxLen2), w \in Vals2(MaxLen2)}
 GNext == UNCHANGED g
 GSpec == GInit /\ [][GNext]_g
 RoundTrip ==
   LET line == RefEncode(g)  p == ParseSetconf(line) IN p.ok /\ p.pairs = g /\ NoCRLF(line)
+\* The grammar is blind to the length of a run of filler bytes: stretching every filler byte of a line (well-formed
+\* or not: the raw value of a one-pair list is taken as the unencoded tail of the line) stretches the parsed keys
+\* and values in the same way and changes nothing else.  This is what lets the harness hand TLC a megabyte-long
+\* command line with each long filler run shortened on both sides (lengths compared separately, Holds12 lruns/wruns).
+RECURSIVE H(_)
+H(s) == IF s = <<>> THEN <<>> ELSE (IF Head(s) = ZZ THEN <<ZZ, ZZ>> ELSE <<Head(s)>>) \o H(Tail(s))
+HP(ps) == [i \in 1..Len(ps) |-> <<H(ps[i][1]), H(ps[i][2])>>]
+RunBlind ==
+  LET enc == RefEncode(g)
+      raw == Setconf \o <<SP>> \o g[1][1] \o <<EQ>> \o g[1][2]
+      Blind(l) == LET p == ParseSetconf(l)  q == ParseSetconf(H(l)) IN p.ok = q.ok /\ (p.ok => q.pairs = HP(p.pairs))
+  IN Blind(enc) /\ Blind(raw)
 \* reply side: the GETINFO/GETCONF renderings contain no CR/LF inside a line and end with a final line
 =============================================================================
